@@ -44,6 +44,9 @@ def make_source(sym, kind):
     if kind == 'neighbors':return Environments.from_neighbors_synthetic(6, n_actions=3, n_context_features=2, n_action_features=2, n_neighborhoods=3, seed=3), None, False
     if kind == 'kernel':   return Environments.from_kernel_synthetic(6, n_actions=3, n_context_features=2, n_action_features=2, n_exemplars=3, seed=3), None, False
     if kind == 'mlp':      return Environments.from_mlp_synthetic(6, n_actions=3, n_context_features=2, n_action_features=2, seed=3), None, False
+    if kind in ('linear0','neighbors0','kernel0','mlp0'):         # no context and no action features: the constructors delegate to other simulations
+        ctor = {'linear0': Environments.from_linear_synthetic, 'neighbors0': Environments.from_neighbors_synthetic, 'kernel0': Environments.from_kernel_synthetic, 'mlp0': Environments.from_mlp_synthetic}[kind]
+        return ctor(6, n_actions=3, n_context_features=0, n_action_features=0, seed=3), None, False
     if kind == 'lambda':   return Environments.from_lambda(6, _ctx, _acts, _rwd), None, False
     if kind == 'lambda30': return Environments.from_lambda(30, _ctx, _acts, _rwd), None, False
     if kind == 'lambda_rng': return Environments.from_lambda(6, _ctx_r, _acts_r, _rwd_r, 5), None, False
@@ -89,7 +92,7 @@ def make_source(sym, kind):
 def unwrapless(v): return v
 def _same(X, Y, snap): return all(a is b for r,s in zip(X,snap[0]) for a,b in zip(r,s)) and list(Y) == snap[1]
 
-SOURCES = ['linear','neighbors','kernel','mlp','lambda','lambda_rng','xy','csv','custom','logged','nested_list','nested_ns','arff_nominal']
+SOURCES = ['linear','neighbors','kernel','mlp','lambda','lambda_rng','xy','csv','custom','logged','nested_list','nested_ns','arff_nominal','linear0','neighbors0','kernel0','mlp0']
 FILTERS = {
     'none':      lambda e: e,
     'shuffle':   lambda e: e.shuffle(seed=3),
@@ -116,6 +119,7 @@ FILTERS = {
     'logged':    lambda e: e.logged(RandomLearner(seed=3)),
     'logged_eps':lambda e: e.logged(BanditEpsilonLearner(.5, seed=3)),
     'ope':       lambda e: e.logged(RandomLearner(seed=3)).ope_rewards('IPS'),
+    'ope_only':  lambda e: e.ope_rewards('IPS'),            # on an already logged environment
     'logged_shuffle': lambda e: e.logged(RandomLearner(seed=3)).shuffle(seed=2),
     'grounded':  lambda e: e.grounded(4,2,4,2,seed=2),
 }
@@ -161,9 +165,11 @@ def params_(tier):
         pairs = [(f,'none') for f in fl] + [('shuffle','take'),('logged','shuffle'),('cache','take'),('chunk','shuffle'),('scale','sort'),('impute','scale'),('noise','cache'),('reservoir','batch'),('logged_eps','cache'),('take','cache')]
     else:
         pairs = [(a,b) for a in fl for b in fl if not (a == 'none' and b != 'none') and not (a in ('batch','batch_unbatch') and b in ('batch','batch_unbatch'))]    # batching a batch is outside
-    return [dict(src=s, f1=a, f2=b) for s in SOURCES for a,b in pairs] + [dict(src='lambda30', f1=a, f2=b) for a,b in (('cache','none'),('chunk','none'),('cache','take'),('none','none'),('shuffle','cache'))]
+    zero = ('linear0','neighbors0','kernel0','mlp0')       # the zero-feature synthetic sources only under a few chains
+    zero_pairs = [('none','none'),('shuffle','none'),('cache','none'),('take','none'),('logged','none'),('batch','none')]
+    return [dict(src=s, f1=a, f2=b) for s in SOURCES for a,b in pairs if s not in zero or (a,b) in zero_pairs] + [dict(src='lambda30', f1=a, f2=b) for a,b in (('cache','none'),('chunk','none'),('cache','take'),('none','none'),('shuffle','cache'))]
 
-@obligation('C04','reread', bounds={'quick':"13 sources (incl. an ARFF file with nominal feature and label, and two whose contexts nest a categorical inside a list / namespace dict) (+ a 30-interaction lambda source for the cache filters) x (27 single filters + 10 two-filter chains) x read histories of 2 operations (3 thorough) from {full read, partial read abandoned after j interactions, params, pickle round-trip, materialize} followed by a full read; symbolic integer features in the custom source",
+@obligation('C04','reread', bounds={'quick':"17 sources (incl. the four synthetic kinds without context/action features, an ARFF file with nominal feature and label, and two whose contexts nest a categorical inside a list / namespace dict) (+ a 30-interaction lambda source for the cache filters) x (27 single filters + 10 two-filter chains) x read histories of 2 operations (3 thorough) from {full read, partial read abandoned after j interactions, params, pickle round-trip, materialize} followed by a full read; symbolic integer features in the custom source",
                                     'thorough':"all ordered filter pairs; plus save()/from_save()"},
             functions=FUNCS, params=params_, classify=_classify, budget={'quick':100,'thorough':3000})
 def reread(sym, src, f1, f2):
@@ -216,7 +222,7 @@ def make_two(sym):
     B = [{'context': [7+i, (i*5) % 4 - 1], 'actions': [0,1,2], 'rewards': [(2*i+k) % 3 for k in range(3)]} for i in range(4)]
     return Environments([SymEnv(A,'A'), SymEnv(B,'B')])
 
-@obligation('C04','several_environments', bounds="an Environments object over TWO custom environments (3 and 4 interactions, concrete features) under each of the 27 filter shortcuts; history of <=3 reads (which environment, full or abandoned after 1 interaction: solver-enumerated) followed by a full read of both: every full read of an environment equals the read of the same environment in a fresh identical Environments object that never read the other one",
+@obligation('C04','several_environments', bounds="an Environments object over TWO custom environments (3 and 4 interactions, concrete features) under each of the 28 filter shortcuts; history of <=3 reads (which environment, full or abandoned after 1 interaction: solver-enumerated) followed by a full read of both: every full read of an environment equals the read of the same environment in a fresh identical Environments object that never read the other one",
             functions=FUNCS, params=lambda tier: [dict(f1=f) for f in FILTERS], classify=lambda v: f"{v.get('info',{}).get('f1')}|{v['what'].split(':')[0]}"[:140], budget={'quick':100,'thorough':900})
 def several_environments(sym, f1):
     sym.note(f1=f1)
@@ -243,3 +249,34 @@ def several_environments(sym, f1):
         d = same(ref[k][0], [freeze(x) for x in envs[k].read()])
         sym.check(d is None, f"final read of environment {k} after history {hist} differs from its read in a fresh identical Environments object: {d}")
         sym.check(dict(envs[k].params) == ref[k][1], f"params of environment {k} changed after history {hist}")
+
+
+# ---------------------------------------------------------------------------------------------------
+@obligation('C04','derived', bounds="a parent environment (custom source, plain or logged, materialized or not) from which a child is derived by each of the 28 filter shortcuts; the child is read (fully, or abandoned after 1 interaction) once or twice; afterwards the PARENT still reads as a fresh identical parent does and the source data are untouched",
+            functions=FUNCS, params=lambda tier: [dict(f2=f) for f in FILTERS], classify=lambda v: f"{v.get('info',{}).get('f2')}|{v['what'].split(':')[0]}"[:140], budget={'quick':100,'thorough':900})
+def derived(sym, f2):
+    sym.note(f2=f2)
+    pk = sym.choice('parent', ['plain','logged','logged_eps'])
+    mat = sym.flag('materialized')
+    def parent():
+        data = [{'context': [(i*3) % 4 - 1, i], 'actions': [0,1,2], 'rewards': [(i+k) % 3 for k in range(3)]} for i in range(4)]
+        e = Environments.from_custom(SymEnv(data, 'P'))
+        if pk == 'logged': e = e.logged(RandomLearner(seed=3))
+        if pk == 'logged_eps': e = e.logged(BanditEpsilonLearner(.5, seed=2))
+        return (e.materialize() if mat else e), data
+    ref_parent, _ = parent()
+    ref = [freeze(i) for i in ref_parent[0].read()]
+    p, data = parent()
+    snap = [dict(context=list(d['context']), actions=list(d['actions']), rewards=list(d['rewards'])) for d in data]
+    try:
+        child = FILTERS[f2](p)
+        nreads = sym.choice('child_reads', [1,2])
+        for r in range(nreads):
+            if sym.flag(f'full{r}'): list(child[0].read())
+            else:
+                it = iter(child[0].read()); next(it, None); del it
+    except Exception:
+        sym.check(True, 'combination not type-compatible: outside the claim'); return
+    d = same(ref, [freeze(i) for i in p[0].read()])
+    sym.check(d is None, f"after reading a child derived with '{f2}' the parent ({pk}{', materialized' if mat else ''}) reads differently from a fresh identical parent: {d}")
+    sym.check([dict(context=list(x['context']), actions=list(x['actions']), rewards=list(x['rewards'])) for x in data] == snap and all(set(x) == {'context','actions','rewards'} for x in data), "reading a derived environment modified the data handed to the constructor")
